@@ -3,6 +3,7 @@ import Txtpp.Model.Text
 import Txtpp.Model.Tag
 import Txtpp.Model.Project
 import Txtpp.Model.Safe
+import Txtpp.Model.Cli
 import Txtpp.Model.CoordSim
 open Driver Txt
 
@@ -198,6 +199,29 @@ def handle (line : String) : String :=
       if offVocabulary cfg fs then s!"vocab {showFS fs'}" else
       s!"{o} {showFS fs'}"
     | _, _, _, _, _ => "bad-field"
+  | ["cli", sub, needed, tq, tv, tr, tj, tn, tin, sq, sv, sr, sj, sn, sin] =>
+    -- the flag mapping of src/main.rs on the parsed command line (top-level part, sub-command part)
+    match tj.toNat?, sj.toNat?, (splitList tin).mapM unhex, (splitList sin).mapM unhex with
+    | some tj, some sj, some tin, some sin =>
+      let b (x : String) : Bool := x == "t"
+      let topF : CliFlags := { quiet := b tq, verbose := b tv, recursive := b tr, threads := tj, inputs := if tin.isEmpty then [['.']] else tin }
+      let topB : CliBuildFlags := { shell := [], noTrailingNewline := b tn }
+      let subF : CliFlags := { quiet := b sq, verbose := b sv, recursive := b sr, threads := sj, inputs := if sin.isEmpty then [['.']] else sin }
+      let subB : CliBuildFlags := { shell := [], noTrailingNewline := b sn }
+      let p : Option CliParsed :=
+        if sub == "none" then some { sub := none, flags := topF, build := topB, needed := b needed }
+        else if sub == "clean" then some { sub := some (.clean subF), flags := topF, build := topB, needed := b needed }
+        else if sub == "verify" then some { sub := some (.verify subF subB), flags := topF, build := topB, needed := b needed }
+        else none
+      match p with
+      | none => "bad-field"
+      | some p =>
+        let c := p.config
+        let m := match c.mode with | .build => "build" | .inMemory => "needed" | .clean => "clean" | .verify => "verify"
+        let v := match c.verbosity with | .quiet => "q" | .normal => "n" | .verbose => "v"
+        let t (x : Bool) := if x then "t" else "f"
+        s!"{m} {t c.trailingNewline} {t c.recursive} {c.numThreads} {v} {",".intercalate (c.inputs.map hex)}"
+    | _, _, _, _ => "bad-field"
   | ["safe", mode, base, tree, cmds] =>
     -- on how many txtpp sources of the tree the side condition of the pass-level theorems (C06/C08/C09) holds
     match modeOf mode, unhex base, parseTree (splitList tree), parseCmds (splitList cmds) with
